@@ -528,6 +528,8 @@ def _check_error_form(model, res, m, f, root, val, stmt):
         ok = True
     elif isinstance(val, ast.Call) and sa.call_name(val) == 'str' and len(val.args) == 1:
         inner = val.args[0]
+        if isinstance(inner, ast.Name):
+            inner = sa.resolve_local(f, inner)      # x = from_message(e); error = str(x)
         if isinstance(inner, ast.Call) and (sa.call_name(inner) or '').split('.')[-1] == 'from_message':
             ok = True
         else:
